@@ -16,7 +16,9 @@ import (
 	"crypto/rand"
 	"crypto/rsa"
 	"crypto/sha1"
-	"crypto/sha256"
+	_ "crypto/md5"
+	_ "crypto/sha256"
+	_ "crypto/sha512"
 	"encoding/base64"
 	"encoding/binary"
 	"math/big"
@@ -30,6 +32,25 @@ type pgpKeyMat struct {
 	bits    int    // declared bit length of n / p (RSA/DSA/ElGamal), else 0
 	curve   string // for display: "P-256", "Ed25519", …
 	secret  []byte // secret-key material appended to the body for a secret-key packet (unprotected), if any
+}
+
+// hash algorithm of the signatures written by makeSig (OpenPGP id): 8 SHA-256 unless a generator selects another
+var pgpSigHash byte = 8
+
+func pgpCryptoHash() crypto.Hash {
+	switch pgpSigHash {
+	case 1:
+		return crypto.MD5
+	case 2:
+		return crypto.SHA1
+	case 9:
+		return crypto.SHA384
+	case 10:
+		return crypto.SHA512
+	case 11:
+		return crypto.SHA224
+	}
+	return crypto.SHA256
 }
 
 func pgpMPI(b []byte) []byte {
@@ -77,7 +98,7 @@ func newRSAKey(created uint32, k *rsa.PrivateKey) *pgpKeyMat {
 	body := append(keyHead(created, 1), pgpMPI(k.N.Bytes())...)
 	body = append(body, pgpMPI(big.NewInt(int64(k.E)).Bytes())...)
 	return &pgpKeyMat{algo: 1, created: created, body: body, bits: k.N.BitLen(), signer: func(d []byte) []byte {
-		s, err := rsa.SignPKCS1v15(rand.Reader, k, crypto.SHA256, d)
+		s, err := rsa.SignPKCS1v15(rand.Reader, k, pgpCryptoHash(), d)
 		if err != nil {
 			fatalf("rsa sign: %v", err)
 		}
@@ -227,11 +248,11 @@ func makeSig(signer *pgpKeyMat, spec pgpSigSpec, signedData []byte) pgpSig {
 	if spec.embedded != nil {
 		unhashed = append(unhashed, subpacket(32, spec.embedded)...)
 	}
-	head := []byte{4, spec.sigType, signer.algo, 8, byte(len(hashed) >> 8), byte(len(hashed))}
+	head := []byte{4, spec.sigType, signer.algo, pgpSigHash, byte(len(hashed) >> 8), byte(len(hashed))}
 	head = append(head, hashed...)
 	trailer := []byte{4, 0xFF, 0, 0, 0, 0}
 	binary.BigEndian.PutUint32(trailer[2:], uint32(len(head)))
-	h := sha256.New()
+	h := pgpCryptoHash().New()
 	h.Write(signedData)
 	h.Write(head)
 	h.Write(trailer)
@@ -279,4 +300,15 @@ func pgpArmor(typ string, data []byte) []byte {
 	out.WriteString("=" + base64.StdEncoding.EncodeToString([]byte{byte(crc >> 16), byte(crc >> 8), byte(crc)}) + "\n")
 	out.WriteString("-----END " + typ + "-----\n")
 	return out.Bytes()
+}
+
+// secretKeyPacketBody: public body + S2K usage 0 (unprotected) + secret MPIs + two-octet checksum
+func secretKeyPacketBody(pub []byte, secretMPIs []byte) []byte {
+	sum := 0
+	for _, b := range secretMPIs {
+		sum += int(b)
+	}
+	out := append(append([]byte{}, pub...), 0)
+	out = append(out, secretMPIs...)
+	return append(out, byte(sum>>8), byte(sum))
 }
